@@ -390,6 +390,31 @@ class _rewrite_captured_vars(ast.NodeTransformer):
         return any([a == a_name for frames in self._ignore_stack for a in frames])
 
 
+def lambda_parameter_names(lam: ast.Lambda) -> List[str]:
+    "Names of the parameters of a lambda that a call can bind by keyword, in order"
+    return [a.arg for a in lam.args.posonlyargs + lam.args.args + lam.args.kwonlyargs]
+
+
+def lambda_call_follow_renames(call: ast.Call, old_names: List[str]) -> ast.Call:
+    """`call` calls a lambda whose parameters used to be named `old_names`. If they have been
+    renamed since, the keyword arguments that bind them are renamed with them.
+
+    Args:
+        call (ast.Call): A call whose `func` is a lambda
+        old_names (List[str]): The parameter names before the lambda was rewritten
+
+    Returns:
+        ast.Call: The same call, its keywords naming the lambda's current parameters
+    """
+    if isinstance(call.func, ast.Lambda):
+        renamed = dict(zip(old_names, lambda_parameter_names(call.func)))
+        call.keywords = [
+            ast.keyword(arg=renamed.get(k.arg, k.arg), value=k.value)  # type: ignore
+            for k in call.keywords
+        ]
+    return call
+
+
 class _resolve_called_lambdas(ast.NodeTransformer):
     "Resolve any `(lambda x: x + 1)(y)` calls into just `y + 1`."
 
@@ -414,9 +439,13 @@ class _resolve_called_lambdas(ast.NodeTransformer):
                 result = self.visit(lambda_node.body)
                 self._arg_map_list.pop()
                 return result
+
+            # A call we do not resolve (keyword arguments, defaults, ...): its arguments and the
+            # lambda are still looked at, and keywords follow any parameter that gets renamed.
+            old_names = lambda_parameter_names(lambda_node)
+            return lambda_call_follow_renames(self.generic_visit(node), old_names)
         else:
             return self.generic_visit(node)
-        return node
 
     def visit_Lambda(self, node: ast.Lambda) -> Any:
         """The parameters of a lambda we are not calling hide outer arguments of the same name
